@@ -80,3 +80,19 @@ package gff
 //@   property C02
 //@   requires w != nil && w.w != nil
 //@   ensures [bytes] err == nil ==> n == emitted(w.w) - old(emitted(w.w))
+
+// ---- frame column (C02): what the writer prints is what the reader parses back ----
+//@ func (Frame).String
+//@   property C02
+//@   pure
+//@   ensures [digit] 0 <= f && f <= 2 ==> len(result) == 1 && result[0] == 48 + f
+//@   ensures [dot]   (f < 0 || f > 2) ==> len(result) == 1 && result[0] == 46
+
+//@ func verifLemmaFrameRoundTrip
+//@   property C02
+//@   lemma
+//@   requires -1 <= f && f <= 2
+//@   ensures result == f
+func verifLemmaFrameRoundTrip(f Frame) Frame {
+	return mustAtoFr([][]byte{[]byte(f.String())}, 0, 0)
+}
